@@ -231,3 +231,48 @@ UNITS.append({
     },
     "fns": ["zvariant::framing_offset_size::FramingOffsetSize::{for_bare_container,for_encoded_container,max,bump_up}"],
 })
+
+
+# ---------------------------------------------------------------------------------------------------------------
+# D-Bus alignment table (C01 anchor "per-type D-Bus alignment table"): for ALL signatures (the function does not
+# recurse, so the statement is unbounded in the shape of the children)
+# ---------------------------------------------------------------------------------------------------------------
+ALIGN_PRELUDE = """
+// Spec: D-Bus specification, "Summary of types" / marshalling alignment column.
+pub open spec fn spec_align_dbus(s: Signature) -> int {
+    match s {
+        Signature::U8 => 1,          // BYTE
+        Signature::Bool => 4,        // BOOLEAN
+        Signature::I16 => 2, Signature::U16 => 2,
+        Signature::I32 => 4, Signature::U32 => 4,
+        Signature::I64 => 8, Signature::U64 => 8,
+        Signature::F64 => 8,         // DOUBLE
+        Signature::Str => 4,         // STRING: aligned as its u32 length
+        Signature::ObjectPath => 4,  // OBJECT_PATH
+        Signature::Signature => 1,   // SIGNATURE: u8 length
+        Signature::Variant => 1,     // VARIANT: alignment of the signature
+        Signature::Fd => 4,          // UNIX_FD
+        Signature::Array(_) => 4,    // ARRAY: aligned as its u32 length
+        Signature::Dict { .. } => 4, // array of dict entries
+        Signature::Structure(_) => 8,
+        Signature::Unit => 8,        // (zvariant-internal "no data": treated as an empty structure)
+    }
+}
+"""
+
+UNITS.append({
+    "id": "C01.verus.alignment_dbus", "props": ["C01", "C03"], "file": "zvariant_utils/src/signature/mod.rs",
+    "cfg": {'feature="gvariant"': False, "unix": True},
+    "prelude": ALIGN_PRELUDE,
+    "items": [{"kind": "enum", "name": "Format", "file": "zvariant_utils/src/serialized.rs"},
+              {"kind": "enum", "name": "Child", "file": "zvariant_utils/src/signature/child.rs", "derives": []},
+              {"kind": "enum", "name": "Fields", "file": "zvariant_utils/src/signature/fields.rs", "derives": []},
+              {"kind": "enum", "name": "Signature", "derives": []},
+              {"kind": "impl", "name": "Signature", "only_fns": ["alignment", "alignment_dbus"]}],
+    "contracts": {
+        "alignment_dbus": {"ensures": [("C01.verus.alignment_dbus.eq_spec_table", "r as int == spec_align_dbus(*self)"),
+                                       ("C01.verus.alignment_dbus.is_1_2_4_8", "r == 1 || r == 2 || r == 4 || r == 8")]},
+        "alignment": {"ensures": [("C01.verus.alignment.dbus_format_uses_table", "format is DBus ==> r as int == spec_align_dbus(*self)")]},
+    },
+    "fns": ["zvariant_utils::signature::Signature::{alignment,alignment_dbus}"],
+})
